@@ -663,10 +663,15 @@ fn driver(tier: &str) -> i32 {
     let workers: usize = std::env::var("VERIF_WORKERS").ok().and_then(|s| s.parse().ok()).unwrap_or_else(|| std::thread::available_parallelism().map(|n| n.get()).unwrap_or(4));
     let verif_dir = PathBuf::from(std::env::var("VERIF_DIR").unwrap_or_else(|_| "/verif".into()));
     let capacity = verif_plan_cache::CAPACITY;
-    let flavour = if capacity == 3 { "smallcache" } else { "cap64" };
+    // the capacity-3 cache also runs in a build with debug assertions and overflow checks on
+    // (debug-only code on the cache path: assertions about ownership, counters)
+    let checked = cfg!(debug_assertions);
+    let flavour = if capacity == 3 { if checked { "smallcache-checked" } else { "smallcache" } } else { "cap64" };
     let quick = tier != "thorough";
     // (scenarios, schedules per scenario)
     let (scenarios, iters): (u64, usize) = match (quick, capacity == 3) {
+        (true, true) if checked => (160, 50),
+        (false, true) if checked => (2_000, 100),
         (true, true) => (400, 50),
         (false, true) => (10_000, 200),
         (true, false) => (16, 6),
